@@ -130,7 +130,51 @@ pub struct GenProgOpts {
     pub big_images: bool,
     /// also use patterns, shadings, ExtGStates, form XObjects, annotations, form fields, outline
     pub rich: bool,
+    /// user-chosen resource and field names containing PDF delimiters, whitespace and non-ASCII
+    pub tricky_names: bool,
 }
+
+#[derive(Clone, Debug, Serialize, Deserialize, PartialEq)]
+pub struct EncSpec {
+    /// 0 RC4-40, 1 RC4-128, 2 AES-128, 3 AES-256
+    pub strength: u8,
+    pub user: String,
+    pub owner: String,
+    pub perm_bits: u32,
+}
+
+pub fn gen_password(r: &mut Rng) -> String {
+    match r.below(7) {
+        0 => String::new(),
+        1 => "user".into(),
+        2 => "pässwörd-ñ-日本".into(),
+        3 => "a-password-that-is-definitely-longer-than-thirty-two-bytes-0123456789".into(),
+        4 => "p(w)\\d".into(),
+        5 => format!("pw{}", r.below(100000)),
+        _ => " leading and trailing space ".into(),
+    }
+}
+
+pub fn gen_enc(r: &mut Rng) -> EncSpec {
+    let user = gen_password(r);
+    let owner = if r.chance(1, 4) { user.clone() } else { gen_password(r) };
+    EncSpec { strength: r.below(4) as u8, user, owner, perm_bits: if r.chance(1, 3) { 0xFFFF_FFFF } else { r.next_u64() as u32 } }
+}
+
+pub fn apply_encryption(doc: &mut Document, e: &EncSpec) {
+    use oxidize_pdf::document::{DocumentEncryption, EncryptionStrength};
+    use oxidize_pdf::encryption::Permissions;
+    let strength = match e.strength % 4 {
+        0 => EncryptionStrength::Rc4_40bit,
+        1 => EncryptionStrength::Rc4_128bit,
+        2 => EncryptionStrength::Aes128,
+        _ => EncryptionStrength::Aes256,
+    };
+    doc.set_encryption(DocumentEncryption::new(e.user.clone(), e.owner.clone(), Permissions::from_bits(e.perm_bits), strength));
+}
+
+pub const TRICKY_NAMES: [&str; 14] = ["Im 1", "Im(1)", "Im/1", "Im#1", "Im%1", "Im<1>", "Im[1]", "Im{1}", "Imé", "Im\t1", "Im#41", "Im\n", "", "日本"];
+
 
 pub fn gen_program(r: &mut Rng, o: &GenProgOpts) -> Program {
     let mut ops = vec![];
@@ -191,7 +235,7 @@ pub fn gen_program(r: &mut Rng, o: &GenProgOpts) -> Program {
                 _ => {
                     img_n += 1;
                     DocOp::Image {
-                        name: format!("Im{}", img_n),
+                        name: if o.tricky_names && r.chance(1, 2) { format!("{}{}", TRICKY_NAMES[r.usize_below(TRICKY_NAMES.len())], img_n) } else { format!("Im{}", img_n) },
                         w: if o.big_images && r.chance(1, 2) { 60 + r.below(100) as u32 } else { 1 + r.below(12) as u32 },
                         h: if o.big_images && r.chance(1, 2) { 60 + r.below(100) as u32 } else { 1 + r.below(12) as u32 },
                         gray: r.chance(1, 2),
@@ -213,7 +257,7 @@ pub fn gen_program(r: &mut Rng, o: &GenProgOpts) -> Program {
                 rich_n += 1;
                 let op = match r.below(6) {
                     0 => DocOp::Opacity { fill: *r.pick(&[0.25, 0.5, 0.75, 1.0]), stroke: *r.pick(&[0.3, 0.6, 1.0]) },
-                    1 => DocOp::Pattern { name: format!("P{}", rich_n), step: *r.pick(&[5.0, 10.0, 12.5]) },
+                    1 => DocOp::Pattern { name: if o.tricky_names && r.chance(1, 3) { format!("{}{}", TRICKY_NAMES[r.usize_below(TRICKY_NAMES.len())], rich_n) } else { format!("P{}", rich_n) }, step: *r.pick(&[5.0, 10.0, 12.5]) },
                     2 => DocOp::Shading {
                         name: format!("Sh{}", rich_n),
                         x0: x,
@@ -225,7 +269,13 @@ pub fn gen_program(r: &mut Rng, o: &GenProgOpts) -> Program {
                     },
                     3 => DocOp::FormX { name: format!("Fm{}", rich_n), w: r2(10.0 + r.below(90) as f64), h: r2(10.0 + r.below(90) as f64) },
                     4 => DocOp::Note { x, y, contents: gen_text(r, o.tricky_text) },
-                    _ => DocOp::Field { name: format!("field_{}_{}", rich_n, j), value: gen_text(r, false), kind: r.below(2) as u8, x, y },
+                    _ => DocOp::Field {
+                        name: if o.tricky_names && r.chance(1, 2) { format!("{}.f{}_{}", TRICKY_NAMES[r.usize_below(TRICKY_NAMES.len())], rich_n, j) } else { format!("field_{}_{}", rich_n, j) },
+                        value: gen_text(r, o.tricky_text),
+                        kind: r.below(2) as u8,
+                        x,
+                        y,
+                    },
                 };
                 ops.push(op);
             }
@@ -366,7 +416,9 @@ pub fn build_document(p: &Program) -> Result<Document, String> {
                         use oxidize_pdf::graphics::{PaintType, TilingPattern, TilingType};
                         let pat = TilingPattern::new(name.clone(), PaintType::Colored, TilingType::ConstantSpacing, [0.0, 0.0, *step, *step], *step, *step)
                             .with_content_stream(b"0 0 2 2 re f".to_vec());
-                        pg.add_pattern(name.clone(), pat).map_err(|e| format!("add_pattern: {}", e))?;
+                        if pg.add_pattern(name.clone(), pat).is_err() {
+                            continue; // the API refused the name: nothing was added
+                        }
                     }
                     DocOp::Shading { name, x0, y0, x1, y1, rgb0, rgb1 } => {
                         use oxidize_pdf::graphics::{AxialShading, ShadingDefinition};
